@@ -1,3 +1,4 @@
+import IceProofs.AgentInboundData
 import IceModel.AgentCore
 import IceProofs.Basic
 /-!
@@ -263,26 +264,28 @@ theorem writeToPair_quiet (a : Agent) (now id len : Nat) (sl : Bool) : QuietO a 
         · exact writeVia_quiet _ _ _ _
 
 theorem inboundData_quiet (a : Agent) (now : Nat) (l : Cand) (src len : Nat) : QuietO a (a.inboundData now l src len) := by
-  have tail : ∀ (b : Agent), Quiet a b → Quiet a
-      (if len > 0 then
-        match ({ b with rx := b.rx ++ [len] } : Agent).selected with
-        | some id => ({ b with rx := b.rx ++ [len] } : Agent).modPair id fun p => { p with pktRecv := p.pktRecv + 1, bytesRecv := p.bytesRecv + len }
-        | none => { b with rx := b.rx ++ [len] }
-      else { b with rx := b.rx ++ [len] }) := by
+  have tail : ∀ (b : Agent), Quiet a b → Quiet a (b.enqueue len) := by
     intro b hb
     refine hb.trans ?_
+    unfold Agent.enqueue
+    simp only
     split
     · split
       · exact ⟨⟨rfl, rfl, rfl, rfl, fun h => h⟩, rfl, rfl, rfl, rfl⟩
       · exact ⟨⟨rfl, rfl, rfl, rfl, fun h => h⟩, rfl, rfl, rfl, rfl⟩
     · exact ⟨⟨rfl, rfl, rfl, rfl, fun h => h⟩, rfl, rfl, rfl, rfl⟩
-  unfold Agent.inboundData
-  simp only
-  split
-  · exact ⟨tail _ (seenRemoteRecv_quiet _ _ _), rfl⟩
-  · split
-    · exact ⟨tail _ ⟨⟨rfl, rfl, rfl, rfl, fun h => h⟩, rfl, rfl, rfl, rfl⟩, rfl⟩
-    · exact ⟨Quiet.refl a, rfl⟩
+  rw [IceProofs.InboundData.inboundData_eq]
+  cases hv : IceProofs.InboundData.validated a now l src with
+  | none => exact ⟨Quiet.refl a, rfl⟩
+  | some b =>
+    have hb : Quiet a b := by
+      rcases IceProofs.InboundData.validated_cases hv with ⟨ru, rfl⟩ | ⟨r, _, rfl⟩
+      · exact seenRemoteRecv_quiet _ _ _
+      · exact (seenRemoteRecv_quiet a r.uid now).trans ⟨⟨rfl, rfl, rfl, rfl, fun h => h⟩, rfl, rfl, rfl, rfl⟩
+    simp only
+    split
+    · exact ⟨tail b hb, rfl⟩
+    · exact ⟨hb, rfl⟩
 
 /-- `Quiet` without the clause about `locals` (for `addLocalCandidate`) -/
 structure Same (a a' : Agent) : Prop where
